@@ -1,5 +1,6 @@
 (* Props/C05.v — property C05: retries. *)
-From CV Require Import Model.Base Model.Events Model.Attempt Model.Sched Proofs.BaseP Proofs.AttemptP Proofs.SchedP Proofs.SchedP2.
+From CV Require Import Model.Base Model.Events Model.Attempt Model.Sched Proofs.BaseP Proofs.AttemptP Proofs.SchedP Proofs.SchedP2
+  Proofs.SchedP8.
 
 (* an attempt asks for a retry exactly when it failed (failed step, failed hook, failed World creation) and
    retries are left; the counters move by one: attempt k carries (k, N-k) *)
@@ -37,3 +38,29 @@ Theorem C05_others_keep_running :
     Forall (fun x => left_until now x <> None) w -> left_until now e = None -> n <> Some 0%nat ->
     hd_error (fst (fst (take_ready n now md (w ++ e :: t)))) = Some e.
 Proof. exact take_ready_skips_waiting. Qed.
+
+(* AT MOST N+1 ATTEMPTS, whole run: for every configuration and every label list (any parser timing, any order of
+   completion, any delays), the number of Started events of scenario x never exceeds the budget the input gives it:
+   one attempt plus the retries of each supplied scenario with that id ... *)
+Theorem C05_at_most_n_plus_1_attempts :
+  forall c ls s tr x, exec c ls = Some (s, tr) -> starts_of x tr <= budget_of x ls.
+Proof. exact attempts_per_scenario_bounded. Qed.
+Print Assumptions C05_at_most_n_plus_1_attempts.
+
+(* ... which, when the id is supplied once, is exactly 1 + its retries *)
+Theorem C05_budget_is_n_plus_1 :
+  forall x F sc pre post a b,
+    sf_scens F = a ++ sc :: b -> ss_id sc = x -> (forall sc', In sc' (a ++ b) -> ss_id sc' <> x) ->
+    (forall l, In l (pre ++ post) -> bl (N.eqb x) l = 0) ->
+    budget_of x (pre ++ LFeature F :: post) = 1 + match ss_retry sc with Some (l, _) => l | None => 0 end.
+Proof. exact budget_of_single. Qed.
+
+Example C05_budget_nonvacuous :
+  let f := mk_sfeature 1 [mk_sscen 11 None false (Some (2, None)); mk_sscen 12 None false None] 0 2 in
+  let ls := [LFeature f; LParserEnd; LTop; LAttStart (11, 0); LAttEnd (11, 0) true; LTop; LAttStart (11, 1);
+             LAttEnd (11, 1) true; LTop; LAttStart (11, 2)] in
+  match exec (mk_cfg (Some 1%nat) false) ls with
+  | Some (s, tr) => (starts_of 11 tr, budget_of 11 ls, starts_of 12 tr, budget_of 12 ls)
+  | None => (0, 0, 0, 0)
+  end = (3, 3, 0, 1).
+Proof. vm_compute. reflexivity. Qed.
